@@ -1245,6 +1245,13 @@ def _judge_parked(w, margin):
             if not any(ok): return                  # the synchronisation condition cannot be met (USER alone needs a user action)
     states = {s.identifier: s.fsm.state.name for s in live}
     if set(states.values()) & {'RESTARTING', 'SHUTTING_DOWN', 'FINAL'}: return
+    w.stats['quiescent_clusters_judged'] = 1; w.stats['quiescent_instances_judged'] = len(live)
+    # C01 on the closed loop: the live, mutually RUNNING instances agree on one Master, which is one of them
+    masters = {s.state_modes.master_identifier for s in live}
+    stable = all(s.state_since <= T[0] - margin for s in live)
+    if stable and (len(masters) != 1 or not (masters <= alive)):
+        w.finding('C01:free:masters-differ-or-none', f'after {margin // PERIOD} stable ticks of the quiet phase the live, mutually RUNNING instances name '
+                  f'these Masters: {sorted((s.k, s.state_modes.master_identifier or "none") for s in live)} (states {sorted(states.items())})')
     # jobs still in progress (a wait_exit program that never exits, a program that crashes and is restarted for ever: process failures
     # have not stopped) keep the Master where it is by design; a job that never ends for another reason is C10's judge
     if any(s.starter.in_progress() or s.stopper.in_progress() or s.last_request > T[0] - margin for s in live): return
@@ -1415,9 +1422,9 @@ def liveness_stage(chk, prefix, variants, n_quick, n_thorough):
     agg['wall_s'] = round(_t.perf_counter() - t0, 1)
     chk.coverage['free_running_stage'] = agg
     chk.coverage['evaluations'] = chk.coverage.get('evaluations', 0) + agg['schedules']
-    chk.assumptions.append('free-running stage: the liveness judges (a restart / shutdown phase that never reaches FINAL, a Starter / Stopper job that never '
-                           'ends) look at a quiet window of 40 ticks at the end of a finite schedule; they are searches for a failing history, the unbounded '
-                           'statements are the theorems')
+    chk.assumptions.append('free-running stage: the quiescence judges (Masters differ, an instance parked or not in the state of its Master, a restart / shutdown '
+                           'phase that never reaches FINAL, a Starter / Stopper job that never ends) look at a quiet window of 40 ticks at the end of a finite '
+                           'schedule; they are searches for a failing history, the unbounded statements are the theorems')
 
 
 def liveness_replay(chk, r, prefix):
